@@ -708,6 +708,9 @@ type program struct {
 	pre, post []item
 	// cold: the configured statement cache (PrepareStmt configurations) is emptied before every run
 	cold bool
+	// viaConn: the outermost block (or the manual sequence) runs inside db.Connection(...), on a dedicated connection,
+	// which must go back to the pool whatever the outcome
+	viaConn bool
 }
 
 func genOutside(r *core.Rand) []item {
@@ -799,7 +802,11 @@ func execute(hi int, p program, failAt int) (w *world, calls int, retErr error, 
 			}
 		}()
 		w.runOutside(p.pre, failAt == 0)
-		if p.root != nil {
+		if p.root != nil && p.viaConn {
+			retErr = h.DB.Connection(func(c *gorm.DB) error {
+				return w.runBlock(c.Session(&gorm.Session{}), p.root, false)
+			})
+		} else if p.root != nil {
 			retErr = w.runBlock(h.DB.Session(&gorm.Session{}), p.root, false)
 		} else {
 			retErr = w.runManual(p.manual)
@@ -893,9 +900,13 @@ func run(c *core.Ctx) {
 		p.pre, p.post = genOutside(r), genOutside(r)
 	}
 	p.cold = (c.Case/8)%2 == 1
+	p.viaConn = p.root != nil && p.root.selfFinish == "" && (c.Case/16)%4 == 3
 	desc := cfgOf(hi).String() + " :: " + p.String()
 	if p.cold && cfgOf(hi).prep {
 		desc += " (cold statement cache)"
+	}
+	if p.viaConn {
+		desc += " (inside db.Connection)"
 	}
 	c.Logf("PROGRAM %s", desc)
 	w, calls, err, pv := execute(hi, p, 0)
